@@ -73,13 +73,20 @@ Theorem C05_all_returned : forall S P SE PE BM kf kc fit im st islands,
   map o_uuid (run S P SE PE BM kf kc fit im st islands) = map s_uuid (accepted_inputs S SE BM kf im islands).
 Proof. exact all_returned. Qed.
 
-(* uncertainties of the parameter groups that are not freed are the input ones (and FIXED2PSF, 2^2, is set at stage 1) *)
+(* uncertainties of the parameter groups that are not freed are the input ones, passed through copied_err (and FIXED2PSF, 2^2,
+   is set at stage 1) *)
 Theorem C05_errors_copied : forall S P SE PE BM kf kc fit im st islands c,
   In c (run S P SE PE BM kf kc fit im st islands) ->
   exists s, In s (accepted_inputs S SE BM kf im islands) /\ o_uuid c = s_uuid s /\
-    ((st < 2)%Z -> o_err_ra c = s_err_ra s /\ o_err_dec c = s_err_dec s /\ Z.testbit (o_flags c) 2 = true) /\
-    ((st < 3)%Z -> o_err_a c = s_err_a s /\ o_err_b c = s_err_b s /\ o_err_pa c = s_err_pa s).
+    ((st < 2)%Z -> o_err_ra c = copied_err (s_err_ra s) /\ o_err_dec c = copied_err (s_err_dec s) /\ Z.testbit (o_flags c) 2 = true) /\
+    ((st < 3)%Z -> o_err_a c = copied_err (s_err_a s) /\ o_err_b c = copied_err (s_err_b s) /\ o_err_pa c = copied_err (s_err_pa s)).
 Proof. exact errors_copied. Qed.
+(* copied_err (generated from source_finder._known_error since /repo f7c2d89) hands on every input uncertainty that IS one -
+   positive, or the catalogue's -1 = unknown - exactly as it is.  (What happens to values that are no uncertainties - 0,
+   negative, NaN / inf in the float code - belongs to C03: C03_copied_errors_masked.  This lemma is proved for both shapes
+   of the copy, so a tree with the plain copy does not disturb C05.) *)
+Theorem C05_input_uncertainty_kept : forall e, 0 < e \/ e = -(1 # 1) -> copied_err e = e.
+Proof. exact copied_err_keeps. Qed.
 
 (* parameters that are not freed come back equal to the input values.
    Position (stage 1): given pix2sky inverts sky2pix.  Shape (stages 1-2): given that the ellipse conversion
